@@ -13,7 +13,8 @@ CFG = {'streams': [{'name': 'C09',
                 'nodes after the old ones); extension is a preorder (histories); Attributes::add accepts equal values and reports different ones; '
                 're-adding an edge keeps it and its attributes. STATEMENT / RUN level (Proofs/AttrConflict.v): strict_attr_conflict_fails, strict_edge_attr_conflict_fails (an `attr` statement whose value differs from the '
                 'value the node / edge already has returns exactly Err DuplicateAttribute), lazy_attr_conflict_fails, lazy_edge_attr_conflict_fails (evaluation of the deferred statement fails with DuplicateAttribute in the statement context, also when the old value was on the graph given to execute_into), '
-                'the four _equal_value_accepted theorems (equal value: Ok, graph unchanged), strict_run_failing_statement_fails_run / strict_run_attr_conflict_fails / lazy_run_failing_attr_statement_fails_run (the failing top-level / deferred statement makes the RUN return Err with that root cause).',
+                'the four _equal_value_accepted theorems (equal value: Ok, graph unchanged), strict_run_failing_statement_fails_run / strict_run_attr_conflict_fails / lazy_run_failing_attr_statement_fails_run (the failing top-level / deferred statement makes the RUN return Err with that root cause). '
+                'WHOLE RUN, positive form (Proofs/MonoSubRun.v, AssignedStrict.v, AssignedLazy.v; ghost relations assigned_strict / assigned_lazy = the run executes Attributes::add of v under k on the element from a state it reached): strict_ok_run_keeps_every_assignment, lazy_ok_run_keeps_every_assignment (run Ok => every executed / evaluated assignment is in the final graph), _assignments_agree (two assignments to one (element, name) wrote equal values), strict_executed_attr_is_assignment (any depth, derivation given), strict_top_attr_node/edge_is_assignment (top-level attr statements of stanzas; no derivation rules through if/for/scan bodies), lazy_deferred_attr_node/edge_is_assignment (every deferred attribute statement).',
  'partial': [],
  'assumptions': ['tree-sitter queries are an external: raw matches are recorded by calling QueryCursor::matches directly on the stanza queries and '
                  'on the merged file query',
